@@ -556,9 +556,26 @@ class Lower:
         c, a, b = self.inner(n)
         ec = self.E(c)
         mark = len(self.pre)
-        ea, eb = self.E(a), self.E(b)
-        if len(self.pre) != mark:
-            raise Abort('may-throw call inside ?: in %s' % self.cur_fn)
+        ea = self.E(a)
+        pa = self.pre[mark:]
+        del self.pre[mark:]
+        eb = self.E(b)
+        pb = self.pre[mark:]
+        del self.pre[mark:]
+        if pa or pb:
+            # a branch contains a call that may raise (or needs statements of its own): c ? a : b becomes
+            #   T t; if (c) { <statements of a>; t = a; } else { <statements of b>; t = b; }   -- only the chosen branch is evaluated
+            if self.cur_spec.get('hoist_all') and self.loop_depth:
+                raise Abort('may-throw call inside ?: in a loop of a hoist_all function (%s)' % self.cur_fn)
+            t = 'vs_t%d' % self.tmp
+            self.tmp += 1
+            self.pre.append('%s %s;' % (self.ctype(n['type']), t))
+            self.pre.append('if (%s) {' % ec)
+            self.pre.extend(pa)
+            self.pre.append('%s = %s; } else {' % (t, ea))
+            self.pre.extend(pb)
+            self.pre.append('%s = %s; }' % (t, eb))
+            return t
         return '(%s ? %s : %s)' % (ec, ea, eb)
 
     def e_ArraySubscriptExpr(self, n):
